@@ -532,7 +532,7 @@ func init() {
 				head(derSeq(), derSeq()),
 				head(derSeq(), derSeq(derExplicit(600, derNull()))),
 				head(derSeq(), derSeq(derExplicit(503, derNull()), derExplicit(702, derInt(2)))),
-				head(derSeq(), derSeq(derTLV(2, true, 600, nil))),                            // zero-length explicit flag at the very end: "explicit tag has no child"
+				head(derSeq(), derSeq(derTLV(2, true, 600, nil))),                              // zero-length explicit flag at the very end: "explicit tag has no child"
 				head(derSeq(), derSeq(derTLV(2, true, 600, nil), derExplicit(702, derInt(1)))), // zero-length explicit flag followed by a member
 				head(derSeq(), derSeq(derTLV(2, true, 702, nil), derExplicit(705, derInt(1)))), // zero-length explicit non-flag
 				head(derSeq(), derSeq(derTLV(2, false, 702, derInt(1)))),                       // primitive explicit wrapper
@@ -540,28 +540,28 @@ func init() {
 				head(derSeq(), derSeq(derTLV(3, true, 702, derInt(1)))),                        // private class
 				head(derSeq(), derSeq(derExplicit(702, append(derInt(1), derInt(2)...)))),      // wrapper longer than its child: the cursor continues inside
 				head(derSeq(), derSeq(derExplicit(702, append(derInt(1), derExplicit(705, derInt(9))...)))),
-				head(derSeq(), derSeq(derExplicit(1, derSeq(derInt(2))))),                      // SEQUENCE where SET is declared
-				head(derSeq(), derSeq(derExplicit(1, derSet(derInt(2), derOctets([]byte{1}))))), // wrong element type inside the set
+				head(derSeq(), derSeq(derExplicit(1, derSeq(derInt(2))))),                         // SEQUENCE where SET is declared
+				head(derSeq(), derSeq(derExplicit(1, derSet(derInt(2), derOctets([]byte{1}))))),   // wrong element type inside the set
 				head(derSeq(), derSeq(derExplicit(1, derSet(derTLV(0, false, 2, []byte{0, 2}))))), // non-minimal integer inside the set
-				head(derSeq(), derSeq(derExplicit(3, derTLV(0, false, 2, []byte{0, 0x7f})))),   // non-minimal integer
+				head(derSeq(), derSeq(derExplicit(3, derTLV(0, false, 2, []byte{0, 0x7f})))),      // non-minimal integer
 				head(derSeq(), derSeq(derExplicit(3, derTLV(0, false, 2, []byte{0xff, 0x80})))),
-				head(derSeq(), derSeq(derExplicit(3, derTLV(0, false, 2, nil)))),               // empty integer
+				head(derSeq(), derSeq(derExplicit(3, derTLV(0, false, 2, nil)))), // empty integer
 				head(derSeq(), derSeq(derExplicit(3, derTLV(0, false, 2, bytes.Repeat([]byte{1}, 9))))),
 				head(derSeq(), derSeq(derExplicit(3, derTLV(0, false, 2, bytes.Repeat([]byte{0x81}, 8))))),
-				head(derSeq(), derSeq(derExplicit(704, derSeq(derOctets(nil), []byte{1, 1, 1}, derEnum(0), derOctets(nil))))), // BOOLEAN 01
-				head(derSeq(), derSeq(derExplicit(704, derSeq(derOctets(nil), derBool(true), derEnum(1<<31), derOctets(nil))))), // enum beyond int32
-				head(derSeq(), derSeq(derExplicit(704, derSeq(derOctets(nil), derBool(true), derEnum(-5))))),                    // missing last member
+				head(derSeq(), derSeq(derExplicit(704, derSeq(derOctets(nil), []byte{1, 1, 1}, derEnum(0), derOctets(nil))))),          // BOOLEAN 01
+				head(derSeq(), derSeq(derExplicit(704, derSeq(derOctets(nil), derBool(true), derEnum(1<<31), derOctets(nil))))),        // enum beyond int32
+				head(derSeq(), derSeq(derExplicit(704, derSeq(derOctets(nil), derBool(true), derEnum(-5))))),                           // missing last member
 				head(derSeq(), derSeq(derExplicit(704, derSeq(derOctets(nil), derBool(true), derEnum(2), derOctets(nil), derInt(1))))), // extra member ignored
-				head(derSeq(), derSeq(long(702, derInt(1), []byte{0x81, 0x03}))),                // non-minimal length
-				head(derSeq(), derSeq(long(702, derInt(1), []byte{0x80}))),                      // indefinite
-				head(derSeq(), derSeq(long(702, derInt(1), []byte{0x82, 0x00, 0x03}))),          // leading zero in length
-				head(derSeq(), derSeq(append([]byte{0xbf, 0x80, 0x85, 0x3e, 0x03}, derInt(1)...))), // non-minimal tag number (leading 0x80)
-				head(derSeq(), derSeq(append([]byte{0xbf, 0x1e, 0x03}, derInt(1)...))),          // high-tag form for a tag < 31
-				head(derSeq(), derSeq(append([]byte{0xbf, 0x8f, 0xff, 0xff, 0xff, 0x7f, 0x03}, derInt(1)...))), // tag beyond int32
-				head(derSeq(), derSeq(append([]byte{0xbf, 0x87, 0xff, 0xff, 0xff, 0x7f, 0x03}, derInt(1)...))), // tag = MaxInt32
-				head(derSeq()),                  // TeeEnforced missing
-				head(),                          // both lists missing
-				head(derSeq(), derSet()),        // SET where a SEQUENCE is declared
+				head(derSeq(), derSeq(long(702, derInt(1), []byte{0x81, 0x03}))),                                                       // non-minimal length
+				head(derSeq(), derSeq(long(702, derInt(1), []byte{0x80}))),                                                             // indefinite
+				head(derSeq(), derSeq(long(702, derInt(1), []byte{0x82, 0x00, 0x03}))),                                                 // leading zero in length
+				head(derSeq(), derSeq(append([]byte{0xbf, 0x80, 0x85, 0x3e, 0x03}, derInt(1)...))),                                     // non-minimal tag number (leading 0x80)
+				head(derSeq(), derSeq(append([]byte{0xbf, 0x1e, 0x03}, derInt(1)...))),                                                 // high-tag form for a tag < 31
+				head(derSeq(), derSeq(append([]byte{0xbf, 0x8f, 0xff, 0xff, 0xff, 0x7f, 0x03}, derInt(1)...))),                         // tag beyond int32
+				head(derSeq(), derSeq(append([]byte{0xbf, 0x87, 0xff, 0xff, 0xff, 0x7f, 0x03}, derInt(1)...))),                         // tag = MaxInt32
+				head(derSeq()),                     // TeeEnforced missing
+				head(),                             // both lists missing
+				head(derSeq(), derSet()),           // SET where a SEQUENCE is declared
 				head(derSeq(), derSeq(), derSeq()), // trailing member in the outer SEQUENCE: ignored
 				append(head(derSeq(), derSeq()), 1, 2, 3),
 				{}, {0x30}, {0x30, 0x00}, {0x30, 0x80}, {0x31, 0x00}, {0x10, 0x00}, {0x70, 0x00}, {0xb0, 0x00},
